@@ -179,7 +179,9 @@ CHECK = {
     "rule": "2D/3D, float and double, symmetric and interval constructors; bounds in [-1e3,1e3] incl. exact multiples and "
             "half-multiples of r; r in [1e-3,10] (round, dyadic, random) with <= 1e7 cells; points on extent corners, on cell "
             "borders +-1 ulp, on centres, random; cells 0, n-1 and five interior fractions per axis; non-trivial = >= 3 cells on an axis",
-    "trusted": ["hand-written model coq/GridMapModel.v tied by differential execution (this run)",
+    "trusted": ["translate/tr_C13_gridmap.py + translate/eigsym.py (clang JSON AST -> coq/gen/SrcGridMap.v): per-axis reading of Eigen "
+                "coefficient-wise expressions, romea::core::Interval accessors, table-fill loop as a function of the index",
+                "hand-written model coq/GridMapModel.v: proved equal to the generated terms (SrcTieC13.v) and also run differentially (this run)",
                 "extraction (ExtrOcamlBasic), ocaml/numf.ml (binary32 = round of binary64 result), ocaml/drv_C13.ml",
                 "harness/C13.cpp, python oracle in checks/C13.py",
                 "binary64/binary32 theorems: hardware float/double arithmetic = Flocq round-to-nearest-even in FLT_exp(-1074,53) / "
@@ -189,7 +191,17 @@ CHECK = {
                     "binary32 on 2^-100 <= r <= 2^100, |lo|,|hi| <= 2^20*r; outside those domains the effect of rounding is only "
                     "observed by the oracle (explained by the half-cell margin theorem over the reals, not proved)"],
     "manifest": {
-        "text": "For every resolution r>0, extent lo<=hi and point in the extent (reals): half-cell margin 1/2 <= (p-origin)/r <= n-1/2, "
+        "text": "SYNTACTIC TIE: the interval constructor (floored minimal positions, numbers of cells, the cell-centre table as "
+                "(size, fun n => centre n)), the (maximalRange, cellResolution) constructor's delegation, computeCellIndexes and "
+                "computeCellCenterPosition of GridIndexMapping<float|double,2|3> are re-translated on every run from the clang AST of "
+                "the instantiations (translate/tr_C13_gridmap.py + eigsym.py: symbolic execution, Eigen array expressions read axis "
+                "by axis, float and double instantiations must give the same term -> coq/gen/SrcGridMap.v) and proved EQUAL, by "
+                "computation only (same operations, same order), to gm_origin/gm_ncells/gm_centre/gm_index/gm_sym_lo for every "
+                "numeric dictionary reading the literals 0, 1, 0.5 as the model does — proved of the reals AND of the binary64 / "
+                "binary32 dictionaries (C13_source_tie_*): the terms the real and the Flocq theorems are about are the terms "
+                "generated from the source; C13_source_index_in_bounds_binary64/32 state the in-bounds property directly on the "
+                "generated constructor + computeCellIndexes. "
+                "For every resolution r>0, extent lo<=hi and point in the extent (reals): half-cell margin 1/2 <= (p-origin)/r <= n-1/2, "
                 "hence index in [0,n), |p - centre(index)| <= r/2, centres map to their own index, are spaced by exactly r, and the "
                 "first/last cells cover the bounds — proved in Coq (Flocq Zfloor/Zceil/Ztrunc) about the model instantiated at R. "
                 "The same statements are proved in IEEE-754 arithmetic (same model instantiated at a dictionary that rounds to "
@@ -201,8 +213,11 @@ CHECK = {
                 "also <= r/2 + r/512), index(centre(k)) = k for every cell, consecutive centres are r apart within the same slack, "
                 "first/last cells cover the bounds with no slack. The model instantiated at binary64/binary32 is run against "
                 "GridIndexMapping<float|double,2|3> on inputs aimed at cell borders, with an exact-rational oracle of the property.",
-        "note": "Trusted: Coq kernel, stdlib real axioms, Flocq (Raux, generic formats, error_N_FLT); hand model tied by differential run; "
+        "note": "Trusted: Coq kernel, stdlib real axioms, Flocq (Raux, generic formats, error_N_FLT); clang's AST and the translator's reading "
+                "of it (Eigen coefficient-wise operators / cast<> / floor / ceil / Constant per axis, Interval(lower, upper) accessors, "
+                "float-to-size_t conversion = truncation, out-of-range table reads and conversions are UB and not modelled); the model "
+                "is also still tied by the differential run; "
                 "extraction; float dictionaries; harness; oracle; hardware float/double = Flocq rounding.",
-        "technique": "Coq proof over R (floor/ceil/trunc arithmetic) + Flocq rounding-error proof in binary64 and binary32 + extracted-model correspondence in binary64/binary32",
+        "technique": "Coq proof over R (floor/ceil/trunc arithmetic) + Flocq rounding-error proof in binary64 and binary32 + source-to-Gallina translation (symbolic execution of the clang AST) with tie lemmas at the real, binary64 and binary32 dictionaries + extracted-model correspondence in binary64/binary32",
     },
 }
